@@ -5,6 +5,7 @@ Property theorems only (ledger side; the cluster side is C02's model).
 import Helm.Model.Ledger
 import Helm.Lemmas.Ledger
 import Helm.Lemmas.RollbackFailure
+import Helm.Lemmas.UpgradeFailure
 import Helm.Props.C02
 import Helm.Gen.Tables
 import Helm.Spec.Skeletons
@@ -157,6 +158,57 @@ theorem rollback_update_failure_marks_failed :
       [⟨1, .superseded, 1⟩, ⟨2, .superseded, 2⟩, ⟨3, .failed, 1⟩] ∧
     (rollback { version := 1, nHooks := 1 } { wait := .fail } l).1.ledger =
       [⟨1, .superseded, 1⟩, ⟨2, .deployed, 2⟩, ⟨3, .failed, 1⟩] := by decide
+
+/-! ## upgrade: every history -/
+
+/-- EVERY history with unique revisions, every flag combination without --atomic (hooks on or off,
+cleanup-on-fail or not), each of the four cluster-side phases failing: the upgrade returns an
+error, the revision it created is recorded as failed, and every other record -- the deployed
+one included -- is exactly as it was. -/
+theorem upgrade_failure_contained (at_ : FailAt) (fl : UpgradeFlags) (fN : Faults) (p : Nat) (l : Ledger)
+    (lastRec cur : Rec)
+    (hdry : fl.dryRun = false) (hmax : fl.maxHistory = 0) (hatomic : fl.atomic = false)
+    (hhook : at_.needsHook = true → fl.disableHooks = false ∧ 0 < fl.nHooks)
+    (hnd : (revs l).Nodup)
+    (hlast : last? l = some lastRec) (hnp : lastRec.status.isPending = false)
+    (hcur : currentOf l = some cur) :
+    (upgrade fl at_.faults fN p l).2 = .error ∧
+    (upgrade fl at_.faults fN p l).1.ledger = l ++ [⟨lastRec.rev + 1, .failed, p⟩] :=
+  upgrade_failure at_ fl fN p l lastRec cur hdry hmax hatomic hhook hnd hlast hnp hcur
+
+/-- premises satisfiable (a history with a failed revision on top of the deployed one) -/
+example :
+    (upgrade { nHooks := 1, cleanupOnFail := true } FailAt.wait.faults {} 7 [⟨1, .deployed, 1⟩, ⟨2, .failed, 2⟩]).1.ledger =
+      [⟨1, .deployed, 1⟩, ⟨2, .failed, 2⟩, ⟨3, .failed, 7⟩] :=
+  (upgrade_failure_contained .wait { nHooks := 1, cleanupOnFail := true } {} 7 [⟨1, .deployed, 1⟩, ⟨2, .failed, 2⟩]
+    ⟨2, .failed, 2⟩ ⟨1, .deployed, 1⟩ rfl rfl rfl (by intro h; cases h) (by decide) rfl rfl rfl).2
+
+/-- EVERY history with unique positive revisions, --atomic, each of the four cluster-side phases
+failing, the automatic rollback itself fault-free: the upgrade returns an error; the revision it
+created stays recorded as failed; every revision that was deployed is superseded; and one further
+revision is deployed, carrying the content of `tgt`, the most recent revision that was superseded
+or deployed ("the most recent revision that had been deployed"). -/
+theorem atomic_upgrade_failure_restores (at_ : FailAt) (fl : UpgradeFlags) (p : Nat) (l : Ledger)
+    (lastRec cur tgt : Rec)
+    (hdry : fl.dryRun = false) (hmax : fl.maxHistory = 0) (hatomic : fl.atomic = true)
+    (hhook : at_.needsHook = true → fl.disableHooks = false ∧ 0 < fl.nHooks)
+    (hnd : (revs l).Nodup) (hpos : ∀ x ∈ l, 0 < x.rev)
+    (hlast : last? l = some lastRec) (hnp : lastRec.status.isPending = false)
+    (hcur : currentOf l = some cur)
+    (htm : tgt ∈ l) (hts : tgt.status = .superseded ∨ tgt.status = .deployed)
+    (htmax : ∀ x ∈ l, (x.status = .superseded ∨ x.status = .deployed) → x.rev ≤ tgt.rev) :
+    (upgrade fl at_.faults {} p l).2 = .error ∧
+    (upgrade fl at_.faults {} p l).1.ledger =
+      supersedeDeployed (l ++ [⟨lastRec.rev + 1, .failed, p⟩]) ++ [⟨lastRec.rev + 2, .deployed, tgt.payload⟩] :=
+  upgrade_failure_atomic at_ fl p l lastRec cur tgt hdry hmax hatomic hhook hnd hpos hlast hnp hcur htm hts htmax
+
+/-- premises satisfiable -/
+example :
+    (upgrade { atomic := true } FailAt.resources.faults {} 7 [⟨1, .superseded, 1⟩, ⟨2, .deployed, 2⟩]).1.ledger =
+      [⟨1, .superseded, 1⟩, ⟨2, .superseded, 2⟩, ⟨3, .failed, 7⟩, ⟨4, .deployed, 2⟩] :=
+  (atomic_upgrade_failure_restores .resources { atomic := true } 7 [⟨1, .superseded, 1⟩, ⟨2, .deployed, 2⟩]
+    ⟨2, .deployed, 2⟩ ⟨2, .deployed, 2⟩ ⟨2, .deployed, 2⟩ rfl rfl rfl (by intro h; cases h) (by decide) (by decide) rfl rfl rfl
+    (by decide) (Or.inr rfl) (by decide)).2
 
 /-! ## upgrade and atomic on a concrete healthy history (instances; the statements over all
 ledgers are work in progress, see DESIGN.md) -/
